@@ -59,6 +59,8 @@ DupInModule(r, m) ==
   LET names == [i \in DOMAIN m.defs |-> m.defs[i].name] \o [i \in DOMAIN m.exts |-> m.exts[i].name]
   IN \/ \E i, j \in DOMAIN names : i # j /\ names[i] = names[j]
      \/ \E i \in DOMAIN names : Has(r, Join(m.path, names[i]))
+     (* names that differ only by `r#` are one Rust identifier; so are two extern values of one name *)
+     \/ CHECKNAMES /\ (HasDupNames(names) \/ HasDupNames(NamesOf(m.evals)))
 
 AddModuleError(m) ==
   IF \E i \in DOMAIN m.evals : ~IsSome(m.evals[i].addr) THEN "extern-value-without-address"
